@@ -171,6 +171,20 @@ func Table() map[string]*Property {
 		Note:    "for every path of hash.field / genStatement / genFunc: two runs on arguments related by EqTop (EqC) take the same branches, iterate alike and return the same number",
 	})
 	add(&Property{
+		ID:     "C18",
+		Groups: []Group{{Layer: "O", Funcs: []string{"mem.gen.genFunc"}, Only: semantic}},
+		Assumptions: append([]string{
+			"f is a deterministic function of the structure of its arguments: result(i, f, args) is a function, and (hash-bucket path) Equal arguments give equal results",
+			"the closure's memo state is reasoned about through an invariant (o-closure-inv) established where the closure is created and preserved by every call; the per-call clauses are verified for an arbitrary later call (captured variables arbitrary values satisfying the invariant, old() = start of the call)",
+			"history-level conclusion on paper (induction over the call sequence): no f call when an entry exists + an entry exists after every call + entries persist ==> f is invoked at most once per class of Equal argument tuples, and every call returns f's results",
+			"derived Hash and Equal are used by their contracts (HashSpec respects EqC: C04; Equal is EqTop: C02)",
+			"arities enumerated: 0..3 parameters x 0..3 results; parameter types opaque, forked by derive.IsComparable",
+			"calls of the same closure do not overlap (sequential histories; concurrency is outside a sequential calculus)",
+		}, oAssume...),
+		Trusted: oTrusted,
+		Note:    "for every path of mem.genFunc (no parameters; one ==-comparable parameter; several ==-comparable parameters keyed by a struct; hash buckets otherwise): memo invariant, results equal f's results, no call when the arguments were seen, exactly one call otherwise, entry stored afterwards, entries persist",
+	})
+	add(&Property{
 		ID:     "C02",
 		Groups: []Group{{Layer: "O", Funcs: []string{"equal.gen.field", "equal.gen.genStatement", "equal.gen.genFunc", "equal.gen.genCurriedFunc"}, Only: semantic}},
 		Assumptions: []string{
